@@ -210,6 +210,44 @@ def h_concurrent(ctx, reuse):
                                      f"destination {p.dest_entity_id.value}, mode {int(p.transmission_mode)}"})
 
 
+def h_same_request_again(ctx):
+    """a PutRequest object that leaves mode and closure to the MIB is submitted twice; in between the operator
+    changes the remote entity's defaults: the second transaction follows the new defaults"""
+    from cfdppy.request import PutRequest
+    from vf.world import MemPath
+    w = World(ctx)
+    ids = Ids(2, 2)
+    modes = [UNACK, ACK]
+    m1, c1 = UNACK, bool(ctx.choice("closure1", 2))
+    m2, c2 = ctx.pick("mode2", modes), bool(ctx.choice("closure2", 2))
+    rig = SrcRig(w, ids, mode=m1, closure=False, seg_len=4, max_packet_len=64)
+    rig.fs.add_source_file("/src/file.bin", ctx.int("S", 0, 8))
+    req = PutRequest(destination_id=ids.dst, source_file=MemPath("/src/file.bin"), dest_file=MemPath("/dst/file.bin"),
+                     trans_mode=None, closure_requested=None)
+    o = rig.put_obj(req)
+    ctx.prop("accepted", o.exc is None and o.ret is True)
+    for _ in range(8):
+        if rig.idle and o.call != ("put",):
+            break
+        o = rig.sm()
+        if o.exc is not None:
+            raise o.exc
+    if not rig.idle:
+        raise symex.HarnessError("first transaction did not complete")
+    rig.rcfg.default_transmission_mode = m2
+    rig.rcfg.closure_requested = c2
+    o = rig.put_obj(req)
+    ctx.prop("accepted", o.exc is None and o.ret is True)
+    o = rig.sm()
+    ctx.prop("started", o.exc is None and o.kinds()[:1] == ["MD"], lambda: {"sig": rigs.exc_sig(o.exc)})
+    md = o.pdus[0]
+    ctx.prop("second_transaction_follows_current_mib",
+             md.transmission_mode == m2 and bool(md.closure_requested) == c2,
+             lambda: {"sig": f"MIB now says mode {int(m2)} closure {c2}; Metadata PDU has mode "
+                             f"{int(md.transmission_mode)} closure {bool(md.closure_requested)}"})
+    ctx.covered("resubmitted")
+
+
 def plan(tier):
     q = tier == "quick"
     specs = [Spec("admission-and-parameters", "vf.harness.c19:h_admission", {}, twin_share=0.1,
@@ -221,6 +259,8 @@ def plan(tier):
     specs.append(Spec("sequence-numbers/one-handler", "vf.harness.c19:h_seq", {"shared": False}, twin_share=1.0))
     specs.append(Spec("sequence-numbers/two-handlers-one-provider", "vf.harness.c19:h_seq", {"shared": True},
                       twin_share=1.0))
+    specs.append(Spec("same-request-object-twice", "vf.harness.c19:h_same_request_again", {}, twin_share=1.0,
+                      obligations=["resubmitted"]))
     for reuse in (False, True):
         specs.append(Spec(f"overlapping-transactions/two-handlers/{'reused' if reuse else 'fresh'}",
                           "vf.harness.c19:h_concurrent", {"reuse": reuse}, twin_share=1.0,
@@ -229,7 +269,7 @@ def plan(tier):
 
 
 BOUNDS = {
-    "quick": "complete truth table request mode {None, ACK, UNACK} x request closure {None, T, F} x MIB mode x MIB closure x source file exists x destination known, with file size, max_file_segment_len and max_packet_len symbolic; premature put request before each of the first M+3 calls of a running transaction (M=2 segments, both modes, closure on/off), compared with the undisturbed run; three transactions on one handler and on two handlers sharing a provider with start values 0/5/1000/65000; two handlers with one provider running overlapping transactions (to two remote entities, modes differ), fresh and after an earlier complete transaction each",
+    "quick": "complete truth table request mode {None, ACK, UNACK} x request closure {None, T, F} x MIB mode x MIB closure x source file exists x destination known, with file size, max_file_segment_len and max_packet_len symbolic; premature put request before each of the first M+3 calls of a running transaction (M=2 segments, both modes, closure on/off), compared with the undisturbed run; three transactions on one handler and on two handlers sharing a provider with start values 0/5/1000/65000; two handlers with one provider running overlapping transactions (to two remote entities, modes differ), fresh and after an earlier complete transaction each; one PutRequest object (mode/closure None) submitted twice with the MIB defaults changed in between",
     "thorough": "M=3",
 }
 OUTSIDE = "sequence number wrap-around; put requests with TLV options; id widths other than (2,2) (C07)"
